@@ -498,6 +498,10 @@ def mod(a, m):
     return binop("mod", a, m)
 
 
+_NEVER_NONE = {"cat", "i2b", "b2i", "hash", "hmac", "add", "mul", "mod", "len", "hex", "unhex", "slice", "scat", "lcat",
+               "map", "join", "rep", "cmp", "not", "land", "lor", "truth", "inrange", "powmod", "bitlen", "csprng", "floordiv",
+               "band", "bor", "bxor", "shl", "shr", "pow"}
+
 CMP_SWAP = {"lt": "gt", "gt": "lt", "le": "ge", "ge": "le", "eq": "eq", "ne": "ne"}
 CMP_NEG = {"lt": "ge", "ge": "lt", "gt": "le", "le": "gt", "eq": "ne", "ne": "eq", "in": "notin", "notin": "in",
            "is": "isnot", "isnot": "is"}
@@ -533,7 +537,7 @@ def cmp(op, a, b):
         return same if op in ("is", "eq") else not same
     if op in ("is", "isnot") and (a is None or b is None):
         other = b if a is None else a
-        if isinstance(other, T) and other.ty not in (ANY, NONE) and other.op != "param":
+        if isinstance(other, T) and other.op in _NEVER_NONE:
             return op == "isnot"
     # canonical orientation: constant on the right; gt/ge rewritten to lt/le
     if op in CMP_SWAP and (not isinstance(a, T)) and isinstance(b, T):
